@@ -17,6 +17,8 @@ struct Tables {
     unary_dec: Vec<(u8, u8)>,
     /// inverse of the encoding column permutation per phase
     perm_inv: Vec<[u8; 56]>,
+    /// x-delta encoding table: (code, length) per symbol
+    unary_codes: Vec<(u16, u8)>,
     pub problems: Vec<String>,
 }
 
@@ -75,8 +77,66 @@ fn tables() -> &'static Tables {
             }
             perm_inv.push(inv);
         }
-        Tables { byte_dec, unary_dec, perm_inv, problems }
+        Tables { byte_dec, unary_dec, perm_inv, unary_codes, problems }
     })
+}
+
+/// Encodes a pair stream exactly as `decode_pairs` reads it (x-delta through the length-limited
+/// unary table, y-delta as Golomb code with the base chosen from (k, number of pairs)). The
+/// pairs are taken in the given order; a pair that cannot follow its predecessor (row going
+/// down, or a column below the predicted one in the same row) makes the stream unencodable.
+/// Used by C14 to craft images whose DECODED pairs take chosen values (columns 56..63, rows
+/// at and beyond k, the reserved value u32::MAX), which byte-level mutations rarely reach.
+pub fn encode_pairs(pairs: &[(u32, u8)], lg_k: u8) -> Option<Vec<u8>> {
+    let t = tables();
+    if !t.problems.is_empty() || pairs.is_empty() {
+        return None;
+    }
+    let k = 1u64 << lg_k;
+    let b = golomb_base_bits(k, pairs.len() as u64);
+    let mut bits: Vec<bool> = vec![];
+    let mut put = |v: u64, n: u8| {
+        for i in 0..n {
+            bits.push((v >> i) & 1 == 1);
+        }
+    };
+    let mut row = 0u64;
+    let mut col_pred = 0u32;
+    for &(r, c) in pairs {
+        let r = r as u64;
+        if r < row {
+            return None;
+        }
+        let yd = r - row;
+        if yd > 0 {
+            col_pred = 0;
+        }
+        if (c as u32) < col_pred {
+            return None;
+        }
+        let xd = (c as u32 - col_pred) as usize;
+        let &(code, len) = t.unary_codes.get(xd)?;
+        put(code as u64, len);
+        let hi = yd >> b;
+        if hi > 4096 {
+            return None;
+        }
+        for _ in 0..hi {
+            put(0, 1);
+        }
+        put(1, 1);
+        put(yd & ((1u64 << b) - 1), b);
+        row = r;
+        col_pred = c as u32 + 1;
+    }
+    // pad to whole 32-bit words (plus one spare word the readers may peek into)
+    let mut bytes = vec![0u8; bits.len().div_ceil(32) * 4];
+    for (i, &bit) in bits.iter().enumerate() {
+        if bit {
+            bytes[i / 8] |= 1 << (i % 8);
+        }
+    }
+    Some(bytes)
 }
 
 pub fn table_problems() -> Vec<String> {
